@@ -45,9 +45,9 @@ def gen_kitchen(r: random.Random, profile: str = "kitchen") -> Dict[str, Any]:
     w.cfg["simulation"]["fundamentalCorrelations"] = {"pairwise": pairs}
     allm = comps + ["IDX"]
     w.add_scripted("SA", r.randint(1, 3), False)
-    w.add_scripted("SH", r.randint(0, 2) or 1, True)
+    w.add_scripted("SH", (r.randint(0, 2) or 1) if profile != "crowd" else r.choice([2, 20, 70]), True)
     d = dict(FCN_SETTINGS)
-    d.update({"numAgents": r.randint(2, 8), "markets": allm})
+    d.update({"numAgents": r.randint(2, 8) if profile != "crowd" else r.choice([70, 130, 260]), "markets": allm})
     w.add_group("FCN", d)
     d = dict(FCN_SETTINGS)
     d.update({"class": "MarketShareFCNAgent", "numAgents": r.randint(1, 4), "markets": comps})
